@@ -27,6 +27,9 @@ use rodbus::verif::{ClientSession, Framing};
 use rodbus::DecodeLevel;
 use tokio::sync::mpsc;
 
+/// first transaction id of the session (`tx=<n>` token right after the framing letter; default 0)
+static START_TX: std::sync::atomic::AtomicU32 = std::sync::atomic::AtomicU32::new(0);
+
 fn parse_line(line: &str) -> Result<(Framing, Vec<Vec<Case>>), String> {
     let mut tokens = line.split_whitespace();
     let (f, framing) = match tokens.next() {
@@ -34,6 +37,13 @@ fn parse_line(line: &str) -> Result<(Framing, Vec<Vec<Case>>), String> {
         Some("R") => ('R', Framing::RtuResponse),
         other => return Err(format!("bad framing {other:?}")),
     };
+    let mut tokens = tokens.peekable();
+    START_TX.store(0, std::sync::atomic::Ordering::Relaxed);
+    if let Some(t) = tokens.peek().and_then(|t| t.strip_prefix("tx=")) {
+        let v: u16 = t.parse().map_err(|_| format!("bad tx= token {t:?}"))?;
+        START_TX.store(v as u32, std::sync::atomic::Ordering::Relaxed);
+        tokens.next();
+    }
     let mut conns: Vec<Vec<Case>> = vec![Vec::new()];
     let mut any = false;
     for tok in tokens {
@@ -74,6 +84,7 @@ async fn wait_returned(names: &mut mpsc::UnboundedReceiver<String>) -> Ended {
 
 async fn one(framing: Framing, conns: &[Vec<Case>], decode: DecodeLevel) -> String {
     let (channel, mut session) = ClientSession::new(framing, 16, decode, None);
+    session.set_next_tx_id(START_TX.load(std::sync::atomic::Ordering::Relaxed) as u16);
     let (wire_tx, mut wire_rx) = mpsc::channel::<Wire>(1);
     let (name_tx, mut names) = mpsc::unbounded_channel::<String>();
     let task = tokio::spawn(async move {
